@@ -72,7 +72,7 @@ pub(crate) fn as_core_duration_int(iv: crate::time::Interval) -> core::time::Dur
 }
 
 // @harness stub_interval_matches_real
-// @props C12 C10 C11 C15:thorough C08:thorough C03:thorough
+// @props C12:quick C10:quick C11:quick C15:quick C08:quick C03:thorough
 // @tier quick
 // @timeout 300
 // @functions Interval::as_core_duration, Interval::as_f64, core::time::Duration::from_secs_f64
